@@ -451,6 +451,13 @@ fn main() {
         out.emit(&json!({"ev": "bad_stream", "error": format!("{} writes, {} parsed", nw, msgs.len())}));
     }
     out.emit(&json!({"ev": "eof", "messages": msgs.len()}));
-    // never run destructors of a possibly wedged session
-    std::process::exit(0);
+    drop(out);
+    // never run destructors of a possibly wedged session; take stopped pre-exec stubs and debuggees of
+    // this process group down with us (the check starts every session in its own session/process group)
+    unsafe {
+        if libc::getpgrp() == libc::getpid() {
+            libc::kill(0, libc::SIGKILL);
+        }
+        libc::_exit(0);
+    }
 }
